@@ -409,7 +409,7 @@ func c08Reuse(sc *Scenario, v *Verdict) *Verdict {
 	for _, k := range sc.OrderKeys {
 		var shared spec.ResolutionCache
 		if sc.Mix == "reuse-lib" {
-			shared = spec.VerifNewSimpleCache()
+			shared = LibCache()
 		} else {
 			shared = NewHCache()
 		}
